@@ -23,7 +23,7 @@ TIERS = {
 }
 
 TOPICS = ('a', 'b', 'c', 'd', 'e', 'f', 'g', 'h')
-BOUNDS = (None, None, 0, 1, 50, 100, 250, 1000, 2500, 0.5, 100.5, 1500, 70, 300)
+BOUNDS = (None, None, 0, 1, 50, 100, 250, 1000, 2500, 0.5, 100.5, 1500, 70, 300, 33.3, 16.7, 1.5)
 
 ###############################################################################
 # Property generation (activator always simple)
@@ -304,7 +304,8 @@ def simulate(sim, pdesc, cfg, on_deliver, extra_topic=None):
         'max_events': cfg['max_events'],
     }
     bus = Bus(sim, fc, on_deliver)
-    b = int(bound) if bound is not None else sim.pick('pseudo_bound', (1, 50, 100, 1000))  # 0.5 ms -> 0, 100.5 ms -> 100
+    # the bound in milliseconds, exactly as written (33.3 ms is 333/10); reactions are timed around it
+    b = Fraction(str(bound)) if bound is not None else Fraction(sim.pick('pseudo_bound', (1, 50, 100, 1000)))
     horizon = sim.pick('horizon', (400, 2000, 6000, 20000))
     busy = sim.coin('busy', 0.3)  # a share of the runs has every publisher talk a lot
     # periodic / bursty publishers
@@ -331,7 +332,9 @@ def simulate(sim, pdesc, cfg, on_deliver, extra_topic=None):
     if pk == 'requirement':
         react_src, react_dst = topics_of(trig), topics_of(beh)  # a happens, then b within/after the bound
     if react_src and react_dst and sim.coin('reactive', 0.75):
-        delays = (0, max(0, b - 1), b, b + 1, 3 * b)
+        tenth = Fraction(1, 10)
+        delays = (Fraction(0), max(Fraction(0), b - 1), b, b + 1, 3 * b, max(Fraction(0), b - tenth), b + tenth,
+                  Fraction(int(b)), Fraction(int(b) + 1), Fraction(round(b)))
         inner = bus.on_deliver
 
         def deliver_hook(bs, msg):
@@ -344,7 +347,7 @@ def simulate(sim, pdesc, cfg, on_deliver, extra_topic=None):
                     pl['x'] = msg[2]['x']
                     pl['y'] = msg[2]['y']
                 bs.count('reactive_responses')
-                bs.count('deadline_offset_%s' % ('at' if d == b else 'before' if d == max(0, b - 1) and d < b else 'after' if d == b + 1 else 'other'))
+                bs.count('deadline_offset_%s' % ('at' if d == b else 'just_before' if b - 1 <= d < b else 'just_after' if b < d <= b + 1 else 'other'))
                 # the reaction is measured from the recorder's arrival stamp: exact delivery
                 bs.after(d, lambda: bs.publish(dst, pl, exact=sim.coin('exact', 0.7)))
         bus.on_deliver = deliver_hook
@@ -459,12 +462,17 @@ class Judge:
         return None
 
 
+def _t_json(t):
+    return int(t) if t == int(t) else str(Fraction(t))
+
+
 def trace_to_json(trace):
-    return [[t, tp, {'x': int(pl['x']), 'y': int(pl['y']), 'ok': pl['ok']}] for t, tp, pl in trace]
+    """Times are milliseconds; a time that is not a whole millisecond is written as a fraction."""
+    return [[_t_json(t), tp, {'x': int(pl['x']), 'y': int(pl['y']), 'ok': pl['ok']}] for t, tp, pl in trace]
 
 
 def trace_from_json(doc):
-    return [(t, tp, {'x': Fraction(pl['x']), 'y': Fraction(pl['y']), 'ok': pl['ok']}) for t, tp, pl in doc]
+    return [(Fraction(t) if isinstance(t, str) else t, tp, {'x': Fraction(pl['x']), 'y': Fraction(pl['y']), 'ok': pl['ok']}) for t, tp, pl in doc]
 
 
 def run_one(seed, cfg, stats):
@@ -522,14 +530,14 @@ def run_one(seed, cfg, stats):
     for k, v in bus.stats.items():
         count(k, v)
     count('runs')
-    count('simulated_ms', bus.now)
+    count('simulated_ms', int(bus.now))
     info = {'text': text, 'shape': shape, 'digest': sim.digest(), 'trace_len': len(bus.trace), 'verdicts': verdicts,
             'faults': {k: v for k, v in bus.stats.items() if k.startswith('fault_')}, 'split': judge.split}
     if viol[0] is not None:
         (rd, sp, sq), n = viol[0]
         v = {'class': 'not-equivalent', 'detail': 'reading %s: property %s, canonical form %s (%d parts) on a history of %d messages' % (
             rd, 'satisfied' if sp else 'violated', ['satisfied' if x else 'violated' for x in sq], len(sq), n),
-            'text': text, 'renest': renest, 'edit': edit, 'trace': trace_to_json(bus.trace[:n]), 'bus_log': [list(e) for e in bus.log][:60], 'reading': rd}
+            'text': text, 'renest': renest, 'edit': edit, 'trace': trace_to_json(bus.trace[:n]), 'bus_log': [[_t_json(e[0])] + list(e[1:]) for e in bus.log][:60], 'reading': rd}
         return v, info
     return None, info
 
